@@ -7,6 +7,7 @@ import sandboxexec_common as sx
 import sandboxexec_sizes as sz
 import sandboxexec_dims as dm
 import sandboxexec_special as sp
+import sandboxexec_where as wh
 from translate_sandbox import translate
 
 RULE_CORR = ("histories of 1-6 executions on one sandbox: every builtin exception class, user subclasses of "
@@ -44,7 +45,15 @@ RULE_CORR = ("histories of 1-6 executions on one sandbox: every builtin exceptio
              "instance, as bare class, inside a function, re-raised) and as a student subclass, crossed with every "
              "tracer style and every place (module level, call, evaluate, imported student file, also threaded); and "
              "the THREAD THE GRADER RUNS ON (main thread, plain threading.Thread, pool worker, _thread dummy thread, "
-             "Timer) crossed with every ending, entry point, threaded mode and with nested executions; real = pedal.sandbox.commands on MAIN_REPORT, model = "
+             "Timer) crossed with every ending, entry point, threaded mode and with nested executions; PLUS "
+             "(sandboxexec_where.py) WHICH REPORT is graded (MAIN_REPORT; a Report of its own through the commands with "
+             "report=; a Sandbox(report=...) object through its methods - MAIN_REPORT and a third report alive beside "
+             "it with a healthy decoy program each, which must gain nothing) crossed with every ending and entry point; "
+             "and EXECUTED TEXT vs STORED TEXT (run(text, filename=<student file>) with 0-40 lines appended, the failure "
+             "raised on / passing through the last stored line, one past, two past, ...; fewer lines; another student "
+             "file; call / evaluate of a function defined past the stored end; CR-only and splitlines-only line ends - "
+             "expected class and lines from CPython executing the text); real = pedal.sandbox.commands / Sandbox methods "
+             "on the graded report, model = "
              "Pedal.SandboxExec.runObserved / runObservedN via the driver (threaded executions are compared with the "
              "model's unthreaded answer); non-trivial = history containing a failing execution")
 
@@ -86,6 +95,12 @@ def histories(prop, rng, tier):
     hs += sp.grader_thread_histories(rng, tier, sweep + special, nested)
     if sp.gated_enabled():
         hs += sp.gated_histories(rng, tier)
+    if wh.gated_enabled():
+        hs += wh.gated_histories()
+    # round 4: which report is graded (own Report / own Sandbox beside a contextualised MAIN_REPORT); the executed
+    # text is not the text stored under that file name (lines appended / fewer / CR line ends)
+    hs += wh.report_histories(rng, tier)
+    hs += wh.text_histories(rng, tier)
     snippets = sx.failing_snippets(rng) + dm.odd_exception_snippets() + sp.special_snippets()
     sized = [s for s in sz.sized_snippets(rng) + sz.rendering_snippets() if not s.get("slow")]
     n = 60 if tier == "quick" else 4000
@@ -152,6 +167,10 @@ def make(prop, theorems, *, model_notes=None, refuted_full=None, driver_exe=None
                 res.count("term:" + op["term"][0] + (":inject" if op.get("inject") else ""))
                 if op.get("threaded"):
                     res.count("threaded:" + op["threaded"])
+                if op.get("report"):
+                    res.count("graded-report:" + op["report"])
+                if op.get("exec_code") is not None:
+                    res.count("executed-text-differs-from-stored-text")
             if any(sx.has_inner(op) for op in ops):
                 res.count("nested-executions:depth=%d" % sx.nesting_depth(ops))
             if any(op["term"][0] != "N" for op in sx.walk_ops(ops)):
@@ -184,9 +203,15 @@ def make(prop, theorems, *, model_notes=None, refuted_full=None, driver_exe=None
 
     def search(rng, tier, broken, corr):
         info = {"rule": "real sandbox vs the property oracle written from the statement (returned, exception "
-                        "available, exactly one runtime feedback naming the class, student line / every borrowed "
+                        "available, exactly one runtime feedback naming the class ON THE GRADED REPORT and nothing on "
+                        "any other live report, student line / every borrowed "
                         "global and both stacks as before) on the correspondence histories, the full termination "
-                        "sweep when something is broken, and seeded random histories",
+                        "sweep when something is broken, and seeded random histories"
+                        + ("; search-only: failures injected into the storing of the output; TIMEOUT as an ending of "
+                           "executions nested in another one (every nesting route, also a thread that survives its "
+                           "SystemExit), judged right after the inner call AND after the abandoned thread has ended; "
+                           "an abandoned thread released by, and ending during, the NEXT top-level execution"
+                           if prop == "C05" else ""),
                 "evaluations": 0, "distinct_nontrivial": 0, "samples": []}
         failures, seen = [], set()
         nt = set()
@@ -286,6 +311,10 @@ def make(prop, theorems, *, model_notes=None, refuted_full=None, driver_exe=None
         if prop == "C05":
             # search-only: pedal itself failing while it stores the captured output (not a step of the model)
             extra += sx.store_failure_histories(rng)
+            # search-only: TIMEOUT as an ending of an execution nested in another one (the time limit itself is C14's;
+            # that whoever gives an execution up undoes exactly ITS patches, and that the abandoned thread touches
+            # nothing when it ends later, is judged here by the snapshot oracle)
+            extra += wh.timeout_histories(rng, tier)
         if broken or not getattr(corr, "runs", None):
             sx.warm_up()
             extra += sx.coverage_histories(rng)
@@ -297,6 +326,7 @@ def make(prop, theorems, *, model_notes=None, refuted_full=None, driver_exe=None
             extra += sz.sized_histories(rng, "thorough" if tier != "quick" else "quick")
             extra += dm.nested_histories(rng, tier) + dm.odd_exception_histories(rng, tier)
             extra += sp.special_histories(rng, tier) + sp.grader_thread_histories(rng, tier)
+            extra += wh.report_histories(rng, tier) + wh.text_histories(rng, tier)
         for _ in range(n):
             extra.append(random_history(rng, snippets, sized, inject_rate=0.1))
         for ops in extra:
@@ -308,7 +338,11 @@ def make(prop, theorems, *, model_notes=None, refuted_full=None, driver_exe=None
         info["oracle_clauses_skipped"] = dict(sx.SKIPPED)
         info["size_limits_read_from_the_tree"] = sz.describe_limits()
         info["special_exception_classes"] = sp.describe_special()
-        info["grader_threads"] = list(sp.GRADER_THREADS) + (["GATED inputs on"] if sp.gated_enabled() else [])
+        info["grader_threads"] = list(sp.GRADER_THREADS) + (["GATED inputs on"] if sp.gated_enabled() else []) + (
+            ["round-4 GATED inputs on"] if wh.gated_enabled() else [])
+        if prop == "C05":
+            info["executions_given_up_on_by_timeout"] = sum(
+                1 for ops in extra for op in sx.walk_ops(ops) if op.get("timeout"))
         return failures, info
 
     def replay(payload):
